@@ -66,14 +66,14 @@ Proof.
                        ~ In x (map fst (tbl_insert v (statement_dependencies tgt s, s) t))).
     { intros x Hx Hin. apply tbl_insert_keys in Hin as [Hin|Hin].
       - subst x. contradiction.
-      - eapply Hdis; [|exact Hin]. rewrite E. cbn. right. exact Hx. }
+      - eapply Hdis; [|exact Hin]. cbn. right. exact Hx. }
     destruct (IH _ Hnd' Hdis' Hget) as [H|[H1 H2]].
     + destruct (N.eq_dec k v) as [->|Hne].
       * rewrite tbl_get_insert_same in H. inversion H; subst. right. split; [left; reflexivity|assumption].
       * rewrite tbl_get_insert_other in H by assumption. left. assumption.
     + right. split; [right; assumption|assumption].
   - assert (Hdis' : forall x, In x (dvars ss) -> ~ In x (map fst t)).
-    { intros x Hx. apply Hdis. rewrite E. cbn. exact Hx. }
+    { intros x Hx. apply Hdis. cbn. exact Hx. }
     destruct (IH _ Hnd Hdis' Hget) as [H|[H1 H2]]; [left; assumption|right; split; [right|]; assumption].
 Qed.
 
@@ -156,7 +156,7 @@ Theorem topo_complete ss :
 Proof.
   split.
   - apply (order_cycle_iff key_of_stmt (table_of ss) (table_of_key ss) (table_of_nodup ss)).
-  - apply order_fuel_enough.
+  - apply (order_fuel_enough key_of_stmt (table_of ss) (table_of_key ss)).
 Qed.
 
 (* acceptance is invariant under any permutation of the top-level statements *)
